@@ -6,6 +6,7 @@ import Props.C11
 import Props.C12
 import Props.C18
 import SdxProofs.Height
+import SdxModel.Convert
 set_option linter.unusedSectionVars false
 /-!
 # C08 — Synthetic row count tracks the original within the hard noise bound
@@ -346,5 +347,38 @@ theorem C08_single_cluster_rows (E : Env α) (inp : ForestIn α) (F : Forest α)
 example : OneIdPerRow #[[5], [6], [7]] 3 := by
   intro r hr
   interval_cases r <;> simp
+
+/-- the normalised table has as many rows as the input -/
+theorem fitTable_size (E : Env α) (cols : List (RawCol α)) (nrows : Nat) : (fitTable E cols nrows).2.size = nrows := by
+  simp [fitTable]
+
+/-- **C08 from the typed input table.**  `Synthesizer(df, SingleClustering()).sample()` in the model — convertors fitted on the typed
+columns, the table normalised, the forest built, the tree over all columns harvested and turned into microdata — for a table of
+`N ≥ 1` rows with one non-null entity id per row and at least one column: the synthetic table is empty only if
+`N < low_threshold + (low_mean_gap + 8.5)·layer_sd`, and otherwise has between `N − 1 − (17·layer_noise_sd + ½)` and
+`N + 17·layer_noise_sd + ½` rows — whatever the column types, values, nulls, salt and RNG streams. -/
+theorem C08_synthesize_single_rows (E : Env α) (cols : List (RawCol α)) (nrows : Nat) (names : List String)
+    (pids : Array (List UInt64)) (ap : AnonParams α) (bp : BucketParams)
+    (hn : 0 < nrows) (hc : 1 ≤ cols.length) (hids : OneIdPerRow pids nrows)
+    (hlt : 2 ≤ ap.supp.lt) (hsd : 0 ≤ ap.supp.sd) (hgap : 0 ≤ ap.supp.gap) (hnsd : 0 ≤ ap.noiseSd) (hz : ∀ s, |E.z s| ≤ 17 / 2)
+    (hstream : List Nat) (mstream : List (Draw α)) (rows : List (List (Cell α × α))) (drawn left : Nat)
+    (h : synthesizeSingle E cols nrows names pids ap bp .unique hstream mstream = .ok (rows, drawn, left)) :
+    (rows = [] → ((nrows : Int) : α) < (ap.supp.lt : α) + (ap.supp.gap + 17 / 2) * ap.supp.sd) ∧
+    (rows ≠ [] → ((nrows : Int) : α) - 1 - (17 * ap.noiseSd + 1 / 2) ≤ ((rows.length : Int) : α) ∧
+      ((rows.length : Int) : α) ≤ ((nrows : Int) : α) + (17 * ap.noiseSd + 1 / 2)) := by
+  unfold synthesizeSingle forestOfTable at h
+  split at h
+  · cases h
+  · rename_i convs F hF
+    split at hF
+    · rename_i F' hinit
+      simp only [Except.ok.injEq, Prod.mk.injEq] at hF
+      obtain ⟨rfl, rfl⟩ := hF
+      have hsz := fitTable_size E cols nrows
+      have := C08_single_cluster_rows E { names, raw := (fitTable E cols nrows).2, pids, ap, bp, kind := .unique } F' hinit
+        (by simp only [hsz]; exact hn) rfl (by simp only [hsz]; exact hids) hlt hsd hgap hnsd hz _ (List.range cols.length) (by simpa using hc)
+        hstream mstream rows drawn left h
+      simpa only [hsz] using this
+    · cases hF
 
 end
